@@ -92,7 +92,7 @@ Build ==
          reqs == {e[2] : e \in {x \in P.E : x[1].k = "fn" /\ x[2].k \in {"val", "arg"}}}
      IN /\ G' = P
         /\ val' = [v \in P.V |-> InputTok(scn, v)]
-        /\ toks' = [j \in DOMAIN scn.inputs |-> [type |-> scn.inputs[j].type, src |-> 0]]
+        /\ toks' = [j \in DOMAIN scn.inputs |-> [type |-> scn.inputs[j].type, src |-> 0, z |-> FALSE]]
         /\ IF scn.bad \in {"nilarg", "nonfunc", "nilconv"}      \* args.go:47-57: a nil option / a failing option is an error
            THEN outcome' = Outc("bugerr") /\ frames' = <<>> /\ PS' = <<>>
            ELSE IF Redef /\ scn.filterOut = "reject" /\ scn.target.out # <<>>     \* redefineOutputs runs first
@@ -135,7 +135,7 @@ Plan ==
                    zseq == SetToSeq(zs)
                    n0 == Len(toks)
                IN /\ iset' = iset0 \cup ins
-                  /\ toks' = toks \o [k \in 1..Len(zseq) |-> [type |-> zseq[k].type, src |-> 0 - 1]]
+                  /\ toks' = toks \o [k \in 1..Len(zseq) |-> [type |-> zseq[k].type, src |-> 0 - 1, z |-> TRUE]]
                   /\ val' = [v \in DOMAIN val |-> IF v \in zs THEN n0 + (CHOOSE k \in 1..Len(zseq) : zseq[k] = v) ELSE val[v]]
                   /\ IF unsat # {} THEN /\ outcome' = [Outc("unsat2") EXCEPT !.missing = unsat]
                                         /\ frames' = <<>>
@@ -214,7 +214,8 @@ ReturnToParent ==
                  eid == Len(log) + 1
                  failed == f.fails /\ ~Redef
              IN /\ log' = IF Redef THEN log ELSE Append(log, ExecRec(child.fn.id, f, args, outsT, failed, IF failed THEN eid ELSE 0))
-                /\ toks' = toks \o [j \in DOMAIN f.out |-> [type |-> f.out[j].type, src |-> child.fn.id]]
+                \* a converter returning a nil struct pointer delivers zero values (valid values, marked z)
+                /\ toks' = toks \o [j \in DOMAIN f.out |-> [type |-> f.out[j].type, src |-> child.fn.id, z |-> f.nilOut]]
                 /\ once' = IF f.once /\ ~Redef THEN once \cup {[fn |-> child.fn.id, outs |-> outsT, fails |-> failed, errid |-> eid]} ELSE once
                 /\ IF failed THEN outcome' = [Outc("converr") EXCEPT !.errid = eid] /\ frames' = <<>> /\ UNCHANGED val
                    ELSE val' = WithOutputs(child.fn, f, outsT) /\ frames' = Resume /\ UNCHANGED outcome
@@ -260,7 +261,7 @@ ExecTarget ==
           IN IF missing THEN outcome' = Outc("bugerr") /\ UNCHANGED <<log, toks>>
              ELSE /\ outcome' = IF f.fails THEN [Outc("targeterr") EXCEPT !.errid = eid] ELSE Outc("ok")
                   /\ log' = Append(log, ExecRec(0, f, args, outsT, f.fails, IF f.fails THEN eid ELSE 0))
-                  /\ toks' = toks \o [j \in DOMAIN f.out |-> [type |-> f.out[j].type, src |-> 0]]
+                  /\ toks' = toks \o [j \in DOMAIN f.out |-> [type |-> f.out[j].type, src |-> 0, z |-> FALSE]]
   /\ frames' = <<>>
   /\ UNCHANGED <<scn, G, val, csv, iset, once, PS>>
 
@@ -290,8 +291,11 @@ ObsKind == CASE outcome.kind \in {"unsat", "unsat2"} -> "unsat"
              [] OTHER -> outcome.kind
 IsConvert == scn.mode \in {"convert", "convcall"}
 ObsLog == IF IsConvert THEN SelectSeq(log, LAMBDA e : e.fn # 0) ELSE log
+\* the harness sees a zero struct as token 0 and a nil interface as -1
+Disp(t) == IF t = 0 THEN 0 ELSE IF toks[t].z THEN (IF toks[t].type \in Ifaces THEN 0 - 1 ELSE 0) ELSE t
+DispSeq(q) == [i \in DOMAIN q |-> Disp(q[i])]
 Observation == [sid |-> scn.sid, kind |-> ObsKind,
-                log |-> [i \in DOMAIN ObsLog |-> [fn |-> ObsLog[i].fn, args |-> ObsLog[i].args, outs |-> ObsLog[i].outs]],
+                log |-> [i \in DOMAIN ObsLog |-> [fn |-> ObsLog[i].fn, args |-> DispSeq(ObsLog[i].args), outs |-> DispSeq(ObsLog[i].outs)]],
                 inputs |-> SetToSeq({[name |-> x.name, type |-> x.type, sub |-> x.sub] : x \in outcome.inputs}),
-                valtok |-> IF IsConvert /\ outcome.kind = "ok" THEN log[Len(log)].args[1] ELSE 0]
+                valtok |-> IF IsConvert /\ outcome.kind = "ok" THEN Disp(log[Len(log)].args[1]) ELSE 0]
 =============================================================================
